@@ -422,6 +422,15 @@ def main():
     model = run_cases(mdl, [model_case(r) for r in runs])
     by_id = {r["id"]: r for r in runs}
 
+    # a finding that has been repaired by a `fix:` commit (listed under "fixed") is no longer tolerated: its class is judged like any other run
+    try:
+        _kfj = json.load(open(os.path.join(VERIF, "known_findings.json")))
+        fixed_ids = {x.get("id") for x in _kfj.get("fixed", []) if x.get("property") == "C14"}
+        fixed_any = any(x.get("property") == "C14" for x in _kfj.get("fixed", []))
+    except Exception:
+        fixed_ids, fixed_any = set(), False
+    kf = [f for f in (known_findings("C14") or PROPOSED) if f["id"] not in fixed_ids and not (fixed_any and not known_findings("C14"))]
+
     verdicts = {}
     stats = {"ok": 0, "fixed": 0, "known": 0, "skip": 0, "bad": 0}
     fam_stats, mode_stats, class_stats = {}, {}, {}
@@ -429,6 +438,10 @@ def main():
     for r, m in zip(runs, model):
         o = impl[r["id"]]
         v, why = judge(r, o, m, tol)
+        if v == "known" and not kf:
+            # the class of the repaired finding (caller blocked / nil success past an enabled timeout) is a failure like any other;
+            # like every timing verdict it is believed only after isolated re-runs
+            v, why = "bad", "a script that runs past an enabled JavaScript timeout is not stopped and reported within the bound (limit %s ms): %s" % (r["eff_ms"], why)
         verdicts[r["id"]] = (v, why)
         if v == "bad":
             suspects.append((r, m, o, why))
@@ -444,9 +457,13 @@ def main():
     for (r, m, o, why) in suspects[:12]:
         fails = [(o, why)]
         for k in range(3):
-            r2 = dict(r, id=10_000_000 + r["id"] * 10 + k)
+            # alone in its process, and watched for three more seconds: a caller that is really blocked never returns,
+            # one that was merely late on a loaded machine does
+            r2 = dict(r, id=10_000_000 + r["id"] * 10 + k, wait_ms=r["wait_ms"] + (3000 if r.get("runs_past") else 0))
             o2 = run_batches(drv, [r2], par=1, procs=1)[r2["id"]]
-            v2, why2 = judge(r, o2, m, tol)
+            v2, why2 = judge(r, o2, m, tol + (3000 if r.get("runs_past") and k == 2 else 0))
+            if v2 == "known" and not kf:
+                v2, why2 = "bad", why
             if v2 != "bad":
                 break
             fails.append((o2, why2))
@@ -514,13 +531,6 @@ def main():
                 want_ms, o.get("class"), o.get("elapsed_ms", -1), want_ms), {"case": c, "impl": o, "model": m}, tag="defaultctl")
 
     # 6. known findings: replay the witness
-    # a finding that has been repaired by a `fix:` commit (listed under "fixed") is no longer tolerated: its class is judged like any other run
-    try:
-        fixed_ids = {x.get("id") for x in json.load(open(os.path.join(VERIF, "known_findings.json"))).get("fixed", []) if x.get("property") == "C14"}
-        fixed_any = any(x.get("property") == "C14" for x in json.load(open(os.path.join(VERIF, "known_findings.json"))).get("fixed", []))
-    except Exception:
-        fixed_ids, fixed_any = set(), False
-    kf = [f for f in (known_findings("C14") or PROPOSED) if f["id"] not in fixed_ids and not (fixed_any and not known_findings("C14"))]
     if not kf and stats["known"]:
         gr = next(rr for rr in runs if verdicts[rr["id"]][0] == "known")
         ck.violation("a script that runs past an enabled JavaScript timeout is not stopped and reported within the bound (mode %s, limit %s ms, `%s`): %s" % (
